@@ -495,6 +495,24 @@ fn run(ctx: &mut Ctx) {
             }
         }
     }
+    // contents: the type word of one descriptor over every defined EFI memory type, the first undefined ones and the
+    // boundary values (a type must never act as a terminator or a filter)
+    ctx.bound("descriptor_types", "maps of 3 descriptors at stride 40 and 48 whose first / middle / last descriptor has the type word 0..=20, 0x7FFFFFFF, 0x80000000, 0xFFFFFFFF (the other fields byte-marked)");
+    for d in [40u32, 48] {
+        for pos in 0..3usize {
+            for ty in (0u32..=20).chain([0x7FFF_FFFF, 0x8000_0000, 0xFFFF_FFFF]) {
+                let l = 3 * d as usize;
+                let mut img = image(d, 1, l);
+                wr32(&mut img, 16 + pos * d as usize, ty);
+                let describe = || J::obj().set("body", "descriptor-types").set("desc_size", d).set("position", pos).set("type_word", ty);
+                ctx.leaf(describe, |ctx| {
+                    ctx.state_direct();
+                    ctx.nontrivial();
+                    canonical(ctx, &arena, d, 1, l, &img);
+                });
+            }
+        }
+    }
     // histories
     let depth = if quick { 4 } else if ctx.dev_profile() { 5 } else { 6 };
     ctx.bound("histories", format!("all call sequences up to depth {} over {{next, nth(1), nth(7), nth(usize::MAX), len, size_hint, Debug, count/last/fold on clones}} on up to 2 handles plus clone, on desc_size {{40,48,64}} x 0..=3 descriptors and six invalid combinations", depth));
